@@ -828,6 +828,10 @@ class Evolution(pg.DNAGenerator):
     if (self._init_population_size is not None
         and len(init_population) >= self._init_population_size):
       self._population_initialized = True
+    if not self._population_initialized:
+      # While the initial population is being proposed, `num_generations`
+      # stays 0 (its members are tagged with generation 1).
+      self._global_state.num_generations = 0
     self._init_population_generator.recover(init_population)
 
 
